@@ -7,6 +7,8 @@ import J5V.Print.Grammar
 import J5V.Print.ScalarProofs
 import J5V.Print.ReparseMain
 import J5V.Print.Cover
+import J5V.Print.CoverLead
+import J5V.Generated.PrintFacts
 /-!
 # C05 — generated .proto text re-parses to the descriptor it was printed from
 
@@ -653,6 +655,80 @@ example : simpleEx.arranged = simpleEx := by rfl
 
 end simple_example
 
+/-! ## 7b. printing is a fixed point — leading comments included
+
+`C05_reprint_fixed` is about descriptors without comments. A j5s file with descriptions compiles to a descriptor
+whose messages / fields / enum values / services / methods carry **leading comments** (≈ 70 % of the generated
+j5s files). The layout theorem holds for them as well: `quietL` allows a leading comment on every element (still no
+detached / trailing comment, no located option), `relaidFileL` asks of the reading the same leading comment on the
+same element and does not ask the gap clause of an element with a leading comment (the printer writes a gap before
+a leading comment whatever the lines say). `C05_reprint_leading_subsumes`: every instance of the comment-free
+hypotheses is an instance of these. `C05_reprint_checked`: the same conclusion from the two *decidable* tests the
+driver evaluates on every `print.file` op — on the arranged summary of the real descriptor and on what the grammar
+model reads from the model's text (evidence `coverage.reprint_theorem_*`). That `Grammar.parseFile` reads a text
+with leading comments this way is, for all files, still validated (against protocompile, every op) and evaluated
+(per op, by these tests), not proved: `C05_reparse` has no comments yet. -/
+
+open Layout in
+theorem C05_reprint_fixed_leading (gen : String) (d d' : FileD) (hu : d.quietL) (hr : relaidFileL d.arranged d') :
+    printFile gen d' = printFile gen d :=
+  printFile_reprintL gen d d' hu hr
+
+open Layout in
+theorem C05_reprint_leading_subsumes (d d' : FileD) (hu : d.quiet) (hr : relaidFile d.arranged d') :
+    d.quietL ∧ relaidFileL d.arranged d' :=
+  ⟨hu.toL, hr.toL (FileD.arranged_quiet d hu)⟩
+
+open Layout in
+theorem C05_reprint_checked (gen : String) (d d' : FileD)
+    (h1 : Cover.quietLFileB d.arranged = true) (h2 : Cover.relaidFileLB d.arranged d' = true) :
+    printFile gen d' = printFile gen d :=
+  printFile_relaidL gen d.arranged d' (Cover.quietLFileB_sound h1) (Cover.relaidFileLB_sound h2)
+
+section lead_example
+open Layout OptionText
+
+def lc (s e : Nat) (c : String) : Loc := ⟨s, e, [], c, ""⟩
+
+def leadEx : FileD :=
+  ⟨Loc.none, "p.v1", [("j5/ext/v1/annotations.proto", "")], [], [],
+   [ .block "message" 1 (lc 5 12 " A thing.\n") 0 "Thing" [exMsgOpt]
+       [ .field ⟨.field, lc 9 9 " second field\n over two lines\n", 1, "", "int32" , "n", 2, some "n", []⟩,
+         .field ⟨.field, lc 7 7 "", 0, "optional ", "string", "foo_id", 1, some "foo_id", [exO1]⟩,
+         .field ⟨.field, lc 10 10 " directly below\n", 2, "", "Kind" , "kind", 3, some "kind", []⟩ ],
+     .block "enum" 2 (lc 14 18 "") 0 "Kind" []
+       [ .field ⟨.value, lc 15 15 "", 0, "", "", "KIND_UNSPECIFIED", 0, none, []⟩,
+         .field ⟨.value, lc 17 17 " the only kind\n", 1, "", "", "KIND_A", 1, none, []⟩ ],
+     .block "service" 0 (lc 20 24 " Serves things.\n") 0 "Things" []
+       [ .rpc (lc 22 22 " Get one.\n") 0 "Get" "Thing" "Thing" [] ] ]⟩
+
+def rdO (name : String) (v : Opt) (line : Nat) : SOpt := ⟨name, [v], true, true, false, line, 0, ""⟩
+
+def leadRead : FileD :=
+  ⟨Loc.none, "p.v1", [("j5/ext/v1/annotations.proto", "")], [], [],
+   [ .block "message" 1 (lc 9 23 " A thing.\n") 0 "Thing" [rdO "(j5.ext.v1.message).object" (.msg "" []) 10]
+       [ .field ⟨.field, lc 12 15 "", 0, "optional ", "string", "foo_id", 1, some "foo_id",
+           [rdO "(j5.ext.v1.field).string" (.msg "" []) 13]⟩,
+         .field ⟨.field, lc 19 19 " second field\n over two lines\n", 0, "", "int32" , "n", 2, some "n", []⟩,
+         .field ⟨.field, lc 22 22 " directly below\n", 0, "", "Kind" , "kind", 3, some "kind", []⟩ ],
+     .block "enum" 2 (lc 25 30 "") 0 "Kind" []
+       [ .field ⟨.value, lc 26 26 "", 0, "", "", "KIND_UNSPECIFIED", 0, none, []⟩,
+         .field ⟨.value, lc 29 29 " the only kind\n", 0, "", "", "KIND_A", 1, none, []⟩ ],
+     .block "service" 0 (lc 33 37 " Serves things.\n") 0 "Things" []
+       [ .rpc (lc 36 36 " Get one.\n") 0 "Get" "Thing" "Thing" [] ] ]⟩
+
+theorem leadEx_quiet : Cover.quietLFileB leadEx.arranged = true := by decide +kernel
+theorem leadEx_relaid : Cover.relaidFileLB leadEx.arranged leadRead = true := by decide +kernel
+
+example : printFile "gen" leadRead = printFile "gen" leadEx :=
+  C05_reprint_checked "gen" leadEx leadRead leadEx_quiet leadEx_relaid
+
+example : leadEx.quietL ∧ relaidFileL leadEx.arranged leadRead :=
+  ⟨by simp [FileD.quietL, leadEx, Loc.noComments, Loc.none, quietListL, Item.quietL, FieldD.quietL, Loc.leadOnly, lc, exO1, exMsgOpt],
+   Cover.relaidFileLB_sound leadEx_relaid⟩
+
+end lead_example
+
 /-! ## 8. the printed text is a function of the descriptor (cited by C14)
 
 `Layout.printText gen d` is a Lean function: equal descriptors give equal texts by construction. What
@@ -694,5 +770,58 @@ theorem C05_print_function_sorted (gen : String) (f : FileD) (out₁ out₂ : Li
 /-- non-vacuity: the example file's top level is such a sorted permutation (service before message) -/
 example : (exFile.arranged.items.map Layout.Item.elem).Pairwise (fun a b => Order.less a b = true) := by
   decide
+
+/-! ## 9. source facts (regenerated by `extract/print.go` from the current tree on every check)
+
+The models above were written from these pieces of `internal/j5s/protoprint`; the extractor reads them again with
+go/ast on every run and the obligations compare them with what the models assume. A change of the escape table, of
+a case condition of `prototextString`, of the element order or of the blank-line rule breaks an obligation here (and,
+independently, the correspondence streams). -/
+section source_facts
+open J5V.Generated.Print
+set_option maxRecDepth 100000
+
+/-- the escape letters of `prototextString` are the ones `TextString.escStep` writes -/
+theorem C05_src_escape_table :
+    escTable = [(34, 34), (92, 92), (10, 110), (13, 114), (9, 116)] ∧
+    ∀ p ∈ escTable, (TextString.escStep [p.1]).1 = [92, p.2] := by decide
+
+/-- every other control byte (and DEL) is written `\\x` + two hex digits, as `goHexPad 2` does -/
+theorem C05_src_escape_default :
+    escDefault = "out = append(out, 'x') ; out = append(out, \"00\"[1+(bits.Len32(uint32(r))-1)/4:]...) ; out = strconv.AppendUint(out, uint64(r), 16)" ∧
+    (TextString.escStep [1]).1 = 92 :: 120 :: TextString.goHexPad 2 1 ∧
+    (TextString.escStep [0x7f]).1 = 92 :: 120 :: TextString.goHexPad 2 0x7f := by decide
+
+/-- the case conditions of the loop, the constant `outputASCII`, the `\\u` / `\\U` branch and the byte class of the fast path -/
+theorem C05_src_escape_cases :
+    escOuterCases = ["r == utf8.RuneError && n == 1", "r < ' ' || r == '\"' || r == '\\\\' || r == 0x7f", "r >= utf8.RuneSelf && (outputASCII || r <= 0x009f)", "default"] ∧
+    outputASCII = "true" ∧
+    unicodeBranch = "out = append(out, '\\\\') ; if r <= math.MaxUint16 { out = append(out, 'u') out = append(out, \"0000\"[1+(bits.Len32(uint32(r))-1)/4:]...) out = strconv.AppendUint(out, uint64(r), 16) } else { out = append(out, 'U') out = append(out, \"00000000\"[1+(bits.Len32(uint32(r))-1)/4:]...) out = strconv.AppendUint(out, uint64(r), 16) } ; in = in[n:]" ∧
+    needEscape = "c < ' ' || c == '\"' || c == '\\'' || c == '\\\\' || c >= 0x7f" := by decide
+
+/-- `typeOrder`: message 1, enum 2, everything else 0 (`Layout.Item.typeOrder`, shipped by the summary) -/
+theorem C05_src_type_order :
+    typeOrderDefault = 0 ∧
+    typeOrderCases = [("protoreflect.MessageDescriptor", 1), ("protoreflect.EnumDescriptor", 2), ("protoreflect.ServiceDescriptor", 0)] := by
+  decide
+
+/-- `sourceElements.Less` (model: `Order.less`) -/
+theorem C05_src_less :
+    lessBody = "{ if se[i].sourceLocation.StartLine == 0 || se[j].sourceLocation.StartLine == 0 { if se[i].typeOrder != se[j].typeOrder { return se[i].typeOrder < se[j].typeOrder } return se[i].descriptor.Index() < se[j].descriptor.Index() } return se[i].sourceLocation.StartLine < se[j].sourceLocation.StartLine }" := by decide
+
+/-- the blank-line rule of `printElements` (model: `Layout.gapCond`), the loop state it reads, the sort before the loop, and
+which kinds of element are followed by `addGap` (model: `Item.gapEnder`; a method adds its gap in `printMethod`) -/
+theorem C05_src_gap_rule :
+    sortCall = "sort.Sort(elements)" ∧
+    gapCondSrc = "idx > 0 && ((lastEnd > 0 && element.sourceLocation.StartLine > lastEnd+1) || element.typeOrder != lastType)" ∧
+    loopUpdates = ["lastEnd = element.sourceLocation.EndLine", "lastType = element.typeOrder"] ∧
+    gapAfter = [("protoreflect.MessageDescriptor", true), ("protoreflect.ServiceDescriptor", true), ("protoreflect.EnumDescriptor", true), ("protoreflect.OneofDescriptor", true), ("protoreflect.FieldDescriptor", false), ("protoreflect.EnumValueDescriptor", false), ("protoreflect.MethodDescriptor", false)] := by decide
+
+/-- `commentLines` / `leadingComments` (model: `Layout.commentBody`, `commentLines`, `leadingCmds`) -/
+theorem C05_src_comments :
+    commentLinesBody = "{ if comment == \"\" { return nil } lines := strings.Split(comment, \"\\n\") lines = lines[:len(lines)-1] for i, line := range lines { lines[i] = fmt.Sprintf(\"//%s\", line) } return lines }" ∧
+    leadingCommentsBody = "{ for _, comment := range loc.LeadingDetachedComments { parts := commentLines(comment) for _, part := range parts { fb.p(part) } fb.addGap() } if loc.LeadingComments != \"\" { fb.addGap() parts := commentLines(loc.LeadingComments) for _, part := range parts { fb.p(part) } } }" := by decide
+
+end source_facts
 
 end J5V.Props.C05
